@@ -301,7 +301,7 @@ lazy_static! {
         ].into_iter()
     );
 
-    static ref TWO_CHAR_OPERATORS: HashSet<char> = HashSet::from_iter(vec!['<', '>', '!', '=', '-'].into_iter());
+    static ref TWO_CHAR_OPERATORS: HashSet<(char, char)> = HashSet::from_iter(vec![('<', '='), ('>', '='), ('!', '='), ('-', '-')].into_iter());
 }
 
 pub fn tokenize_simple(text: &str) -> Result<Vec<Token>, ParserError> {
@@ -349,7 +349,11 @@ pub fn tokenize(text: &str) -> Result<Vec<ParserToken>, ParserError> {
     let mut current_str: Option<String> = None;
     let mut is_escaped = false;
     let mut is_comment = false;
+    // The previous character, if it was an operator character that may start a two-character operator
+    let mut previous_operator_char: Option<char> = None;
     while let Some(current) = state.next_char() {
+        let adjacent_operator_char = previous_operator_char.take();
+
         if current == '\n' {
             state.line += 1;
             state.column = 0;
@@ -493,14 +497,17 @@ pub fn tokenize(text: &str) -> Result<Vec<ParserToken>, ParserError> {
             // Skip
         } else {
             //If the previous token is an operator and the current one also is, upgrade to a two-op char
+            // Only two operator characters directly after each other that form one of the two-character
+            // operators (<=, >=, !=, => and the comment start --) are combined; `x = -1` are two operators.
             let mut is_dual = false;
             if let Some(last) = state.tokens.last().map(|t| &t.token) {
                 match last {
-                    Token::Operator(Operator::Single('=')) if current == '>' => {
+                    Token::Operator(Operator::Single('=')) if current == '>' && adjacent_operator_char == Some('=') => {
                         state.tokens.last_mut().unwrap().token = Token::RightArrow;
                         is_dual = true;
                     },
-                    Token::Operator(Operator::Single(operator)) if TWO_CHAR_OPERATORS.contains(operator) => {
+                    Token::Operator(Operator::Single(operator))
+                    if adjacent_operator_char == Some(*operator) && TWO_CHAR_OPERATORS.contains(&(*operator, current)) => {
                         state.tokens.last_mut().unwrap().token = Token::Operator(Operator::Dual(*operator, current));
                         is_dual = true;
                     }
@@ -510,8 +517,14 @@ pub fn tokenize(text: &str) -> Result<Vec<ParserToken>, ParserError> {
 
             if !is_dual {
                 state.add(Token::Operator(Operator::Single(current)));
+                previous_operator_char = Some(current);
             }
         }
+    }
+
+    // A comment start at the very end of the text
+    if let Some(Token::Operator(Operator::Dual('-', '-'))) = state.tokens.last().map(|t| &t.token) {
+        state.tokens.remove(state.tokens.len() - 1);
     }
 
     state.add(Token::End);
